@@ -200,7 +200,7 @@ func c14Compositions(r *rand.Rand, quick bool) [][]string {
 
 func checkC14(rep *vk.Report, prop string) {
 	if prop == "C14" {
-		rep.Rule = "race-detector build. For every composition (all 8 single policies, all 64 ordered pairs, mandated stacks Hedge(Retry), Hedge(Timeout(Retry)), Timeout(Retry), Timeout(Hedge), ... and sampled triples) one shared executor and shared policy instances are hit by 16-48 goroutines mixing the eight entry points, async Cancel, cancellable contexts and standalone API calls (breaker Record*/TryAcquire/Open/Close/HalfOpen/State/Metrics/RemainingDelay, limiter Try*/Reserve*, bulkhead Try/Acquire/Release); every listener, delay function and fallback reads every accessor of what it is handed. Deciding observations: data-race reports whose stacks contain library frames (de-duplicated by the pair of innermost library functions), panics/fatal errors, a stuck round with goroutines parked on the library's mutexes, per-execution completion-listener counts. Non-trivial: a composition round that ran >=100 executions with >=2 goroutines inside the library at once; distinct by composition."
+		rep.Rule = "race-detector build. For every composition (all 8 single policies, all 64 ordered pairs, mandated stacks Hedge(Retry), Hedge(Timeout(Retry)), Timeout(Retry), Timeout(Hedge), ... and sampled triples) one shared executor and shared policy instances are hit by 16-48 goroutines mixing the eight entry points, async Cancel, cancellable contexts and standalone API calls (breaker Record*/TryAcquire/Open/Close/HalfOpen/State/Metrics/RemainingDelay, limiter Try*/Reserve*, bulkhead Try/Acquire/Release); every listener, delay function and fallback reads every accessor of what it is handed. Deciding observations: data-race reports whose stacks contain library frames (de-duplicated by the pair of innermost library functions), panics/fatal errors, a stuck round with goroutines parked on the library's mutexes, per-execution completion-listener counts; Hedge(Retry) executions whose retry-policy listener is still running while the hedged attempt succeeds (the success must be delivered, no library lock held across a user listener). Non-trivial: a composition round that ran >=100 executions with >=2 goroutines inside the library at once; distinct by composition."
 		rep.Assumptions = []string{
 			"the race detector judges happens-before on the interleavings that occurred, not all schedules; the workload is repeated because reports vary run to run",
 			"user-supplied cache is itself thread-safe; listeners only read",
@@ -220,6 +220,20 @@ func checkC14(rep *vk.Report, prop string) {
 		}
 	}
 	if prop == "C14" {
+		vk.Parallel(scale(rep, 60, 2000), 16, func(i int) {
+			if rep.Skip(60000000 + i) {
+				return
+			}
+			c14ListenerWaitsForSibling(rep, 60000000+i)
+		})
+		// the standalone permit methods of a shared rate limiter called concurrently behave like some sequential order of the
+		// same calls (the C05 histories, judged here as "every property above continues to hold" under concurrency)
+		vk.Parallel(scale(rep, 600, 50000), 16, func(i int) {
+			if rep.Skip(61000000 + i) {
+				return
+			}
+			rlConcurrent(rep, 61000000+i, "C14")
+		})
 		// atomicity that the race detector cannot see: Cancel racing with the retry loop of the async runner
 		cancelStress(rep, "C14", 50000000, scale(rep, 30000, 600000))
 		rep.Require("executions", 10000)
@@ -544,3 +558,68 @@ func libraryDeadlock(dump string) (string, int) {
 	sort.Strings(ws)
 	return strings.Join(ws, ", "), n
 }
+
+// c14ListenerWaitsForSibling: a user listener of a shared per-execution policy executor is slow (here: it waits until the
+// whole execution has returned, bounded by 6s) while a sibling attempt of the same execution - a hedge - succeeds. The
+// library must not hold one of its own locks across the listener: the sibling's success has to be delivered while the
+// listener is still running. Decided by elapsed time with a wide margin (milliseconds vs 6s); between 3s and 6s inconclusive.
+func c14ListenerWaitsForSibling(rep *vk.Report, idx int) {
+	r := vk.Rng(rep.Seed, "C14l", idx)
+	which := vk.Pick(r, "failure", "failure", "exceeded", "abort", "scheduled")
+	released := make(chan struct{})
+	var blocked atomic.Int64
+	wait := func() {
+		if blocked.Add(1) == 1 {
+			select {
+			case <-released:
+			case <-time.After(6 * time.Second):
+			}
+		}
+	}
+	rb := retrypolicy.Builder[int]().WithMaxRetries(2).WithDelay(20 * time.Millisecond)
+	switch which {
+	case "failure":
+		rb.OnFailure(func(failsafe.ExecutionEvent[int]) { wait() })
+	case "exceeded":
+		rb.WithMaxRetries(0).OnRetriesExceeded(func(failsafe.ExecutionEvent[int]) { wait() })
+	case "abort":
+		rb.AbortOnErrors(errE1).OnAbort(func(failsafe.ExecutionEvent[int]) { wait() })
+	case "scheduled":
+		rb.OnRetryScheduled(func(failsafe.ExecutionScheduledEvent[int]) { wait() })
+	}
+	hp := hedgepolicy.BuilderWithDelay[int](time.Millisecond).WithMaxHedges(1).CancelIf(func(_ int, err error) bool { return err == nil }).Build()
+	var calls atomic.Int64
+	fn := func() (int, error) {
+		if calls.Add(1) == 1 {
+			return 0, errE1
+		}
+		return 7, nil
+	}
+	t0 := time.Now()
+	var res int
+	var err error
+	if r.IntN(3) == 0 {
+		res, err = failsafe.NewExecutor[int](hp, rb.Build()).GetAsync(fn).Get()
+	} else {
+		res, err = failsafe.NewExecutor[int](hp, rb.Build()).Get(fn)
+	}
+	took := time.Since(t0)
+	close(released)
+	rep.Eval()
+	cs := map[string]any{"blocking_listener": which}
+	switch {
+	case blocked.Load() == 0:
+		rep.Count("listener_scenarios_without_listener_call", 1)
+	case took >= 6*time.Second:
+		rep.Violate(idx, prop14("sibling-attempt-blocked-behind-user-listener"), fmt.Sprintf("Hedge(Retry(fn)): the first attempt failed and the retry policy's %s listener was still running (it returns when the execution has returned); the hedged attempt succeeded at once but the call returned (%d,%v) only after %v - the hedged attempt was stuck on a lock the library holds across the listener", which, res, err, took), cs)
+	case took >= 3*time.Second:
+		rep.Inconclusive(fmt.Sprintf("C14 listener scenario %d took %v (between 3s and 6s)", idx, took))
+	case err != nil || res != 7:
+		rep.Violate(idx, prop14("hedged-success-not-delivered"), fmt.Sprintf("Hedge(Retry(fn)) with a slow %s listener: the hedged attempt returned (7,nil) but the call returned (%d,%v)", which, res, err), cs)
+	default:
+		rep.Count("sibling_delivered_while_listener_running", 1)
+		rep.Distinct("listener|" + which)
+	}
+}
+
+func prop14(sig string) string { return "C14/" + sig }
